@@ -12,7 +12,7 @@ import (
 // Shared URL space of C07 and C08.
 
 var urlTypes = []TypeD{
-	{Name: "a", Attrs: []AttrD{{"x", kStr}, {"y", kInt}}, Rels: []RelD{{"r", true, "b", ""}, {"rr", false, "b", ""}, {"ab", false, "a", ""}}},
+	{Name: "a", Attrs: []AttrD{{"x", kStr}, {"y", kInt}, {"yx", kStr}}, Rels: []RelD{{"r", true, "b", ""}, {"rr", false, "b", ""}, {"ab", false, "a", ""}}},
 	// b repeats relationship names of a with the other cardinality
 	{Name: "b", Attrs: []AttrD{{"x", kStr}}, Rels: []RelD{{"s", true, "c", ""}, {"rr", true, "c", ""}, {"r", false, "a", ""}}},
 	{Name: "c", Attrs: []AttrD{{"z", kStr}}, Rels: []RelD{{"t", false, "a", ""}}},
@@ -102,7 +102,7 @@ func urlMenu() []qParam {
 	add("fields[none]", "", "q")
 	add("fields[]", "x")
 	add("fields[c]", "t")
-	add("sort", "x,%20", "+", "-x,%09,y", "%20x", "x, y",
+	add("sort", "--x", "--id", "---y,x", "-yx", "yx,-x", "x,yx", "x,%20", "+", "-x,%09,y", "%20x", "x, y",
 		"x", "-x", "x,x", "x,-x", "x,x,x", "id", "-id", "id,x", "x,id,y", "-", "", "zz", "r", "y,x", ",", "-y,-x", "z", "only")
 	add("include", "r.r,rr", "rr.rr", "r.r.r", "r,%20", "%20", "r", "r,rr", "zz", "zz,yy", "zz,yy,r", "r.s", "r.s.t", "r,r.s", "r.zz", "ab.ab", "ab.r.s", "me", "r.s,rr.s", "", "rr,r", "r,ab", "ab", "rr.s,rr", "r.,r", "s", "t.r", "me.me.me")
 	add("page[size]", "1", "-1", "a", "a%26b", "", "10")
